@@ -30,7 +30,8 @@ use tonic_health::server::{health_reporter, HealthReporter};
 use tonic_health::ServingStatus;
 use tower::util::BoxCloneService;
 
-pub const NAMES: [&str; 3] = ["", "a", "b"];
+/// "" (the server as a whole), an ordinary name, and a free-form one (health service names are arbitrary strings)
+pub const NAMES: [&str; 3] = ["", "a", "1st/pay-ments..v2 \u{e9}"];
 pub const MAX_OPS: usize = 30;
 pub const MAX_WATCHERS: usize = 4;
 pub const STRESS_REPS: u64 = 12;
@@ -228,10 +229,10 @@ impl NamedService for SvcE {
     const NAME: &'static str = "";
 }
 impl NamedService for SvcA {
-    const NAME: &'static str = "a";
+    const NAME: &'static str = NAMES[1];
 }
 impl NamedService for SvcB {
-    const NAME: &'static str = "b";
+    const NAME: &'static str = NAMES[2];
 }
 
 type Svc = BoxCloneService<http::Request<tonic::body::Body>, http::Response<tonic::body::Body>, std::convert::Infallible>;
